@@ -67,4 +67,20 @@ TARGETS = {
                  methods={"__lt__": dict(params={"other": "Event"}, pure=True)}),
         ],
     ),
+    "RaftLogGen": dict(
+        out="Gen/RaftLogGen.v", tie="C11/GenTie.v",
+        header="From HS Require Import Base.Prelude Base.PyLib.",
+        classes=[
+            dict(file="happysimulator/components/consensus/log.py", cls="LogEntry",
+                 fields={"index": "Z", "term": "Z", "command": "Z"}, methods={}),
+            dict(file="happysimulator/components/consensus/log.py", cls="Log",
+                 fields={"_entries": "list LogEntry", "commit_index": "Z"},
+                 methods={"append": dict(params={"term": "Z", "command": "Z"}),
+                          "get": dict(params={"index": "Z"}, pure=True, ret="opt LogEntry"),
+                          "truncate_from": dict(params={"index": "Z"}),
+                          "entries_after": dict(params={"index": "Z"}, pure=True, ret="list LogEntry"),
+                          "last_index": dict(pure=True), "last_term": dict(pure=True),
+                          "advance_commit": dict(params={"new_commit_index": "Z"}, ret="list LogEntry")}),
+        ],
+    ),
 }
